@@ -24,12 +24,14 @@ import (
 // directory.
 
 type c15Case struct {
-	Fmt   string `json:"fmt"`   // p2, p1, create
-	Name  string `json:"name"`  // the hostile declared name (or input path spelling for create)
-	Pos   int    `json:"pos"`   // position of the hostile entry in the 2-file set
-	Disk  bool   `json:"disk"`  // run on a real directory with a canary tree
-	Abs   bool   `json:"abs,omitempty"` // name is made absolute by prefixing the scratch root
-	Dmg   bool   `json:"dmg,omitempty"` // damaged copies of the declared files are present in the archive directory (else they are missing)
+	Fmt      string `json:"fmt"`                // p2, p1, create
+	Name     string `json:"name"`               // the hostile declared name (or input path spelling for create)
+	Pos      int    `json:"pos"`                // position of the hostile entry in the 2-file set
+	Disk     bool   `json:"disk"`               // run on a real directory with a canary tree
+	Abs      bool   `json:"abs,omitempty"`      // name is made absolute by prefixing the scratch root
+	Intact   bool   `json:"intact,omitempty"`   // declared files lying directly in the archive directory are present with their original bytes
+	NonSaved bool   `json:"nonsaved,omitempty"` // PAR1: the hostile entry is listed but not saved in the parity set (status bit 0 clear)
+	Dmg      bool   `json:"dmg,omitempty"`      // damaged copies of the declared files are present in the archive directory (else they are missing)
 }
 
 func c15Names(maxLen int) []string {
@@ -86,6 +88,13 @@ func c15Gen(g *core.Gen) {
 			for pos := 0; pos < 2; pos++ {
 				for _, dmg := range []bool{false, true} {
 					g.Emit(&c15Case{Fmt: f, Name: n, Pos: pos, Dmg: dmg})
+					if f == "p1" {
+						g.Emit(&c15Case{Fmt: f, Name: n, Pos: pos, Dmg: dmg, NonSaved: true})
+						if !dmg {
+							g.Emit(&c15Case{Fmt: f, Name: n, Pos: pos, Intact: true, NonSaved: true})
+							g.Emit(&c15Case{Fmt: f, Name: n, Pos: pos, Intact: true})
+						}
+					}
 					if diskSet[n] || len(n) < 9 || (g.Thorough() && len(n) < 12) {
 						g.Emit(&c15Case{Fmt: f, Name: n, Pos: pos, Disk: true, Dmg: dmg})
 					}
@@ -169,14 +178,27 @@ func c15Run(ci interface{}, r *core.Rec) {
 		files["s.vol0+9.par2"] = rpar2.Join(pk...)
 		index = arch + "/s.par2"
 	} else {
-		es := []rpar1.Entry{rpar1.MakeEntry(names[0], datas[0], true), rpar1.MakeEntry(names[1], datas[1], true)}
+		es := []rpar1.Entry{rpar1.MakeEntry(names[0], datas[0], !(c.NonSaved && c.Pos == 0)), rpar1.MakeEntry(names[1], datas[1], !(c.NonSaved && c.Pos == 1))}
+		saved := datas
+		if c.NonSaved {
+			saved = [][]byte{datas[1-c.Pos]}
+		}
 		files["s.par"] = rpar1.Write(0, es, nil)
 		for v := 1; v <= 2; v++ {
-			files[fmt.Sprintf("s.p%02d", v)] = rpar1.Write(uint64(v), es, rpar1.Parity(datas, v))
+			files[fmt.Sprintf("s.p%02d", v)] = rpar1.Write(uint64(v), es, rpar1.Parity(saved, v))
 		}
 		index = arch + "/s.par"
 	}
 	directOnly := c.Fmt == "p1"
+	if c.Intact {
+		for i, n := range names {
+			p := path.Join(arch, n)
+			if strings.ContainsRune(n, 0) || !c15Inside(arch, p, directOnly) || strings.HasSuffix(n, "/") {
+				continue
+			}
+			files[strings.TrimPrefix(p, arch+"/")] = datas[i]
+		}
+	}
 	if c.Dmg {
 		// the declared files exist in the archive directory, damaged (so Repair has something to replace, not only to create)
 		for i, n := range names {
@@ -198,7 +220,10 @@ func c15Run(ci interface{}, r *core.Rec) {
 		fs.Put(root+"/canary.txt", []byte("canary"))
 		fs.Put(root+"/outside/keep", []byte("keep"))
 		before := fs.Snapshot()
-		for _, op := range []string{"verify", "repair"} {
+		for _, op := range []string{"verify", "verify-all", "repair"} {
+			if op == "verify-all" && c.Fmt == "p2" {
+				continue
+			}
 			var err error
 			pi := core.Catch(func() {
 				switch {
@@ -206,6 +231,8 @@ func c15Run(ci interface{}, r *core.Rec) {
 					_, err = par2.VerifVerify(fs, index, par2.VerifyOptions{NumGoroutines: 1})
 				case c.Fmt == "p2":
 					_, err = par2.VerifRepair(fs, index, par2.RepairOptions{NumGoroutines: 1})
+				case op == "verify-all":
+					_, err = par1.VerifVerify(fs, index, par1.VerifyOptions{VerifyAllData: true})
 				case op == "verify":
 					_, err = par1.VerifVerify(fs, index, par1.VerifyOptions{})
 				default:
@@ -358,7 +385,7 @@ func init() {
 	core.Register(&core.Prop{
 		ID:    "C15",
 		Level: "model_checking",
-		Rule: "bounded-exhaustive declared names: every path built from components {a, .., ., empty, a.., ..a} of length 1-4 (thorough 1-5), each with/without a leading and a trailing slash, plus backslash, NUL, drive-letter, UNC, long-traversal and non-ASCII (UTF-8, Latin-1, invalid UTF-8) spellings and absolute paths into a canary tree; in each position of a 2-file set; PAR1 and PAR2 archives written by the reference writers as fully repairable sets whose declared files are x {missing, present in the archive directory but damaged}; real Verify and Repair. Real-directory runs execute from a third directory inside the canary tree, so anything resolved against the current directory is seen. All names run on the recording in-memory filesystem; names shorter than 9 characters (thorough: 12) additionally on a real directory with a canary tree (byte snapshot of everything around the archive directory before/after). PAR2 Create with inputs outside the index directory in 10 spellings. " +
+		Rule: "bounded-exhaustive declared names: every path built from components {a, .., ., empty, a.., ..a} of length 1-4 (thorough 1-5), each with/without a leading and a trailing slash, plus backslash, NUL, drive-letter, UNC, long-traversal and non-ASCII (UTF-8, Latin-1, invalid UTF-8) spellings and absolute paths into a canary tree; in each position of a 2-file set; PAR1 and PAR2 archives written by the reference writers as fully repairable sets whose declared files are x {missing, present in the archive directory but damaged, present and intact (PAR1)}; real Verify (PAR1: also with the full parity check) and Repair; PAR1 also with the hostile entry listed but not saved in the parity set. Real-directory runs execute from a third directory inside the canary tree, so anything resolved against the current directory is seen. All names run on the recording in-memory filesystem; names shorter than 9 characters (thorough: 12) additionally on a real directory with a canary tree (byte snapshot of everything around the archive directory before/after). PAR2 Create with inputs outside the index directory in 10 spellings. " +
 			"Oracle: every write path, cleaned, lies inside the index directory tree (PAR1: directly in it); nothing outside changes or appears; Create refuses. non-trivial = every case (each declares a hostile or boundary name)",
 		Assumptions: []string{"reads outside the directory are counted in evidence but are not an alarm (the statement constrains create/modify/delete)", "Linux path semantics: backslash is an ordinary character"},
 		NewCase:     func() interface{} { return &c15Case{} },
